@@ -282,6 +282,8 @@ func StructFieldOrigin(cell ssa.Value, field string, depth int) ssa.Value {
 		return nil
 	}
 	var direct []ssa.Value
+	var directSt []*ssa.Store
+	var loads []ssa.Instruction
 	var whole []ssa.Value
 	for _, r := range *refs {
 		switch x := r.(type) {
@@ -290,8 +292,15 @@ func StructFieldOrigin(cell ssa.Value, field string, depth int) ssa.Value {
 				for _, rr := range *x.Referrers() {
 					if st, ok := rr.(*ssa.Store); ok && st.Addr == x {
 						direct = append(direct, st.Val)
+						directSt = append(directSt, st)
+					} else if ld, ok := rr.(*ssa.UnOp); ok && ld.Op == token.MUL {
+						loads = append(loads, ld)
 					}
 				}
+			}
+		case *ssa.UnOp:
+			if x.Op == token.MUL && x.X == cell {
+				loads = append(loads, x)
 			}
 		case *ssa.Store:
 			if x.Addr == cell {
@@ -300,6 +309,15 @@ func StructFieldOrigin(cell ssa.Value, field string, depth int) ssa.Value {
 		}
 	}
 	if len(direct) == 1 {
+		// a single field store is the origin only if it precedes every read of the field: a store under a
+		// condition (x.f = v inside an if, after a literal that already set f) leaves the earlier value visible
+		if len(whole) > 0 {
+			for _, ld := range loads {
+				if !InstrDominates(directSt[0], ld) {
+					return nil
+				}
+			}
+		}
 		return direct[0]
 	}
 	if len(direct) > 1 {
